@@ -162,13 +162,17 @@ MixedConflict(p) ==
     IN (\E d \in D : d.lex /\ VarItems(p, par, d.sc, d.n) # {}) \/ Hoisted
 
 \* constructs whose treatment the property statement leaves open (or that this tree is known to treat specially): not emitted
-Unsure(p) ==
+\* the name of a function / class expression shadowed by a parameter or declaration of the same name at the top of
+\* that very function: whether the two share a Var has no observable consequence (renaming both is still an alpha-renaming).
+\* The VERDICT of such a program is not open: one lexical name declared twice in that scope is still an early error.
+SelfNameShadowed(p) ==
+    LET par == Parents(p)
+        D == AllDecls(p, par) IN
+    \E j \in 1..Len(p) : p[j].k = "open" /\ p[j].s \in OptNamed /\ p[j].n # "" /\ Declared(D, j, p[j].n)
+OtherUnsure(p) ==
     LET par == Parents(p)
         D == AllDecls(p, par) IN
     \/ MixedConflict(p)
-    \* the name of a function / class expression shadowed by a parameter or declaration of the same name at the top of
-    \* that very function: whether the two share a Var has no observable consequence (renaming both is still an alpha-renaming)
-    \/ \E j \in 1..Len(p) : p[j].k = "open" /\ p[j].s \in OptNamed /\ p[j].n # "" /\ Declared(D, j, p[j].n)
     \/ \E j \in 1..Len(p) : p[j].k = "open" /\ p[j].s \in {"forlet", "catch"}
                                /\ \E i \in 1..Len(p) : i # j /\ \E d \in DeclsOf(p, par, i) : d.sc = j /\ d.n = p[j].n
     \/ \E j \in 1..Len(p) : p[j].k = "open" /\ p[j].s \in HasParams /\ (\E q \in 1..Len(p[j].ps) : p[j].ps[q].d # "")
@@ -205,7 +209,8 @@ AddClose == depth > 0 /\ prog' = Append(prog, [k |-> "close"]) /\ depth' = depth
 
 CaseFile == IOEnv.VERIF_CASES
 Complete(p, d) == d = 0 /\ Len(p) > 0
-Emit == (Complete(prog', depth') /\ ~Unsure(prog')) =>
+Unsure(p) == OtherUnsure(p) \/ SelfNameShadowed(p)
+Emit == (Complete(prog', depth') /\ ~OtherUnsure(prog') /\ (SelfNameShadowed(prog') => Rejected(prog'))) =>
            LET rej == Rejected(prog') IN
            CSVWrite("%1$s", <<ToJson([prog |-> prog', verdict |-> (IF rej THEN "rejected" ELSE "accepted"),
                                       occ |-> (IF rej THEN <<>> ELSE Occ(prog'))])>>, CaseFile)
